@@ -12,9 +12,16 @@ import sys
 import threading
 
 
+TIME = "/usr/bin/time"
+
+
 def peak_rss_kib(mlar, args, cwd, feed=None):
-    """run mlar; returns (exit status, peak RSS of the child in KiB) — measured by wait4's rusage"""
-    p = subprocess.Popen([mlar] + args, cwd=cwd, stdout=subprocess.DEVNULL, stderr=subprocess.DEVNULL)
+    """run mlar; returns (exit status, peak RSS of the child in KiB). Measured by GNU time (a tiny parent) when it is
+    installed: the ru_maxrss wait4 gives a python parent also counts the image the child had before exec."""
+    mf = os.path.join(cwd, "maxrss.txt")
+    use_time = os.path.exists(TIME)
+    argv = ([TIME, "-f", "%M", "-o", mf] if use_time else []) + [mlar] + args
+    p = subprocess.Popen(argv, cwd=cwd, stdout=subprocess.DEVNULL, stderr=subprocess.DEVNULL)
     t = None
     if feed:
         t = threading.Thread(target=feed)
@@ -23,7 +30,13 @@ def peak_rss_kib(mlar, args, cwd, feed=None):
     p.returncode = os.waitstatus_to_exitcode(status)
     if t:
         t.join()
-    return p.returncode, ru.ru_maxrss
+    rss = ru.ru_maxrss
+    if use_time:
+        try:
+            rss = int(open(mf).read().split()[-1])
+        except (OSError, ValueError, IndexError):
+            pass
+    return p.returncode, rss
 
 
 def main():
